@@ -130,6 +130,8 @@ type Exec struct {
 	nobj     int
 	timers   []*VTimer
 	Version  uint64
+	soloV    uint64 // stutter detection for a lone live thread
+	soloN    int
 	forced   int
 	steps    int
 	live     int
@@ -440,6 +442,8 @@ func (t *Thread) joinVC(o []uint32) {
 	}
 }
 
+const soloQuietMax = 400
+
 // Mutated records that shared state really changed (stutter detection).
 func Mutated() {
 	if X != nil {
@@ -480,7 +484,14 @@ func Op(desc string, o *Obj, mode Mode, ready func() bool) {
 		x.cfg.OnStep(x)
 	}
 	// fast path: a single live thread that is enabled and nothing else to choose
-	if x.live == 1 && x.steps < x.cfg.MaxSteps && (ready == nil || ready()) && !(x.cfg.EarlyTicks && x.hasDeadline()) {
+	// (a lone thread that made soloQuietMax steps without any mutation goes through the slow path so
+	// that a spin loop is recognised as a livelock instead of running into the step cap)
+	if x.Version != x.soloV {
+		x.soloV, x.soloN = x.Version, 0
+	} else {
+		x.soloN++
+	}
+	if x.live == 1 && x.soloN < soloQuietMax && x.steps < x.cfg.MaxSteps && (ready == nil || ready()) && !(x.cfg.EarlyTicks && x.hasDeadline()) {
 		x.steps++
 		t.steps++
 		atomic.AddInt64(&wdSteps, 1)
